@@ -272,6 +272,16 @@ func (Engine) Run(c *choice.Src, o engine.Opt) (out engine.Out) {
 			return
 		}
 	}
+	if h := sim.LocksHeld(); h != 0 {
+		// every task returned but a lock of the object is still held: any later call would block for ever
+		viol("deadlock", "lock-leaked", "all tasks finished but %d lock(s) of the shared object are still held (missing unlock on some path)", h)
+		for ti := range recs {
+			for _, r := range recs[ti] {
+				ev("task %d: %s -> %s  [%d,%d]", ti, r.op, r.res, r.call, r.ret)
+			}
+		}
+		return
+	}
 	// ---- oracles -------------------------------------------------------------------
 	var ops []porcupine.Operation
 	for ti := range recs {
